@@ -90,12 +90,12 @@ def _fslots(seq):
 
 
 TRIPLES_QUICK = ["sip", "psi", "isx"]
-TRIPLES_THOROUGH = [s for s in _seqs(3) if _fslots(s) <= 6]
+TRIPLES_THOROUGH = [s for s in _seqs(3) if _fslots(s) <= 5] + ["isx"]
 
 TIERS = {
     "quick": {
         "one": SEQS_1,
-        "rot": [s for s in _seqs(2) if _fslots(s) <= 6],
+        "rot": [s for s in _seqs(2) if _fslots(s) <= 5] + ["xx", "ic", "tp"],
         "full": [],
         "rot3": TRIPLES_QUICK,
         "naming": [1, 2],
@@ -109,8 +109,8 @@ TIERS = {
         "full": [s for s in _seqs(2) if _fslots(s) <= 6],
         "rot3": TRIPLES_THOROUGH,
         "naming": [1, 2, 3],
-        "naming_contents": {1: "BKD", 2: "BKD", 3: "BKD"},
-        "dyn_classes": ["one", "rot", "full", "rot3"],
+        "naming_contents": {1: "BKD", 2: "BKD", 3: "BD"},
+        "dyn_classes": ["one", "full", "rot3"],
         "dyn_naming": [1, 2],
     },
 }
@@ -436,24 +436,24 @@ def _dyn_sig(path, stage):
     return f"dyn:{path}:{stage}"
 
 
-def _execute(tag, invokes, path, res, owners, classes, sizes):
-    """Compile + run one generated program; returns (violations, n compared).
+def _execute(invokes, path, res, owners, classes, sizes, psy_from=None):
+    """Compile + run one generated program; returns (violations, n compared,
+    build dir) or (None, (stage, log), None) when it does not build/run.
     owners[i] = element that invoke i belongs to (for keys / replay)."""
-    work = _workdir()
-    sub = os.path.join(work, "x")
+    sub = os.path.join(_workdir(), "x_" + path)
     shutil.rmtree(sub, ignore_errors=True)
-    status, log = D.compile_and_run(_root(), sub, res[1], res[2], tag)
+    status, log = D.compile_and_run(_root(), sub, res[1], res[2], psy_from=psy_from)
     viol = []
     compared = 0
     if status != "ok":
-        return None, (status, log)
+        return None, (status, log), None
     report = D.parse_report(log)
     for idx, inv in enumerate(invokes):
         if idx not in report:
             raise RuntimeError(f"no report for invoke {idx} in\n{log[-2000:]}")
         diffs = D.compare(inv, report[idx], sizes)
         if diffs is None:
-            classes["dyn:skipped-overflow"] = classes.get("dyn:skipped-overflow", 0) + 1
+            _count(classes, "dyn:skipped-overflow")
             continue
         compared += 1
         if diffs:
@@ -467,8 +467,7 @@ def _execute(tag, invokes, path, res, owners, classes, sizes):
                        f"differ from the sequential meaning of the invoke, first "
                        f"{what}: expected (n,min,max,sum)/value {exp}, observed {got}",
                 "case": {"element": elem, "path": path, "dyn": True}})
-    shutil.rmtree(sub, ignore_errors=True)
-    return viol, compared
+    return viol, compared, sub
 
 
 def _pack_invokes(elems):
@@ -486,29 +485,40 @@ def _pack_invokes(elems):
 
 def _dynamic(elems_by_path, classes, single=False):
     """Executed oracle for the elements accepted (and statically clean) on a
-    path, packed into one program per path.  Falls back to one program per
-    element when the packed program is refused or does not build."""
+    path.  Elements clean on both paths are packed into one program that is
+    generated once per path (the PSy layer is compiled once when both paths
+    produce the same PSy text); falls back to one program per element when a
+    packed program is refused or does not build."""
     viol = []
     compared = 0
     sizes = _base()
+    both = [e for e in elems_by_path["f2py"]
+            if any(e is o for o in elems_by_path["psyir"])]
+    queue = []
+    if both:
+        queue.append((PATHS, both))
     for path in PATHS:
-        elems = elems_by_path[path]
-        if not elems:
-            continue
-        queue = [[e] for e in elems] if single else [list(elems)]
-        while queue:
-            grp = queue.pop(0)
-            invs, own = _pack_invokes(grp)
-            res = _generate(path, G.program_text(invs, observe=True))
-            if res[0] != "ok":
-                if len(grp) > 1:
-                    queue = [[e] for e in grp] + queue
-                    _count(classes, "dyn:pack-refused-rebuilt-singly")
-                    continue
-                raise RuntimeError(f"element {grp[0]['key']} generated when judged "
-                                   f"but not for execution: {res}")
+        rest = [e for e in elems_by_path[path] if not any(e is o for o in both)]
+        if rest:
+            queue.append(((path,), rest))
+    if single:
+        queue = [(paths, [e]) for paths, grp in queue for e in grp]
+    while queue:
+        paths, grp = queue.pop(0)
+        invs, own = _pack_invokes(grp)
+        text = G.program_text(invs, observe=True)
+        gens = {path: _generate(path, text) for path in paths}
+        if any(gens[path][0] != "ok" for path in paths):
             if len(grp) > 1:
-                # the packed program is a multi-invoke program in its own right
+                queue = [(paths, [e]) for e in grp] + queue
+                _count(classes, "dyn:pack-refused-rebuilt-singly")
+                continue
+            raise RuntimeError(f"element {grp[0]['key']} generated when judged "
+                               f"but not for execution: {gens}")
+        if len(grp) > 1:
+            # the packed program is a multi-invoke program in its own right
+            for path in paths:
+                res = gens[path]
                 for idx, kind, where, msg in P.judge_program(res[1], res[2], invs):
                     elem = own[idx] if idx is not None else own[0]
                     viol.append({"key": f"{elem['key']}@{path}:packed",
@@ -518,23 +528,45 @@ def _dynamic(elems_by_path, classes, single=False):
                                  "case": {"element": {"key": elem["key"] + ":packed",
                                                       "invokes": invs},
                                           "path": path, "dyn": False}})
-            got, extra = _execute(path, invs, path, res, own, classes, sizes)
+        built = {}
+        failed = None
+        results = []
+        for path in paths:
+            res = gens[path]
+            reuse = None
+            for other, (text_o, dir_o) in built.items():
+                if text_o == res[2]:
+                    reuse = dir_o
+            got, extra, sub = _execute(invs, path, res, own, classes, sizes,
+                                       psy_from=reuse)
             if got is None:
-                status, log = extra
-                if len(grp) > 1:
-                    queue = [[e] for e in grp] + queue
-                    _count(classes, "dyn:pack-build-failed-rebuilt-singly")
-                    continue
-                elem = grp[0]
-                viol.append({"key": f"{elem['key']}@{path}:build",
-                             "sig": _dyn_sig(path, status),
-                             "msg": f"[{path}] {_show(invs)}: generated code fails at "
-                                    f"stage {status}: {_first_error(log)}",
-                             "case": {"element": elem, "path": path, "dyn": True}})
+                failed = (path, extra)
+                break
+            built[path] = (res[2], sub)
+            results.append((path, got, extra))
+        if failed is not None:
+            path, (status, log) = failed
+            if len(grp) > 1:
+                queue = [(paths, [e]) for e in grp] + queue
+                _count(classes, "dyn:pack-build-failed-rebuilt-singly")
                 continue
+            elem = grp[0]
+            viol.append({"key": f"{elem['key']}@{path}:build",
+                         "sig": _dyn_sig(path, status),
+                         "msg": f"[{path}] {_show(invs)}: generated code fails at "
+                                f"stage {status}: {_first_error(log)}",
+                         "case": {"element": elem, "path": path, "dyn": True}})
+            # the other path of a single element is still worth running
+            rest = tuple(q for q in paths if q != path and
+                         q not in [r[0] for r in results])
+            if rest:
+                queue.insert(0, (rest, grp))
+        for path, got, extra in results:
             _count(classes, f"dyn:{path}:programs-run")
             viol += got
             compared += extra
+        for _text, sub in built.values():
+            shutil.rmtree(sub, ignore_errors=True)
     return viol, compared
 
 
